@@ -36,6 +36,7 @@ type Coin struct {
 
 // Funded is a synced, unlocked wallet with a ledger of its coins.
 type Funded struct {
+	SmallRate int64 // sat/vB the aimed coins of FundSmall were made for
 	*H
 	Coins  map[wire.OutPoint]*Coin
 	Acct1  uint32
@@ -198,13 +199,25 @@ func (f *Funded) FundImportedKey(rg *rand.Rand, sc waddrmgr.KeyScope, n int) err
 func (f *Funded) FundSmall(rg *rand.Rand, n int) error {
 	var txs []*wire.MsgTx
 	var cs []*Coin
-	for i := 0; i < n; i++ {
+	// besides random ones: for a fee rate of SmallRate sat/vB, a legacy coin worth a
+	// little LESS than its own input (141 x rate against 149 x rate) and a smaller
+	// taproot coin worth clearly MORE than its own (103 x rate against 58 x rate)
+	f.SmallRate = []int64{20, 50, 100}[rg.Intn(3)]
+	aimed := []struct {
+		sc  waddrmgr.KeyScope
+		val int64
+	}{{waddrmgr.KeyScopeBIP0044, 141 * f.SmallRate}, {waddrmgr.KeyScopeBIP0086, 103*f.SmallRate + int64(rg.Intn(50))}}
+	for i := 0; i < n+len(aimed); i++ {
 		sc := FundScopes[rg.Intn(len(FundScopes))]
+		val := int64(1500 + rg.Intn(7500))
+		if i >= n {
+			sc, val = aimed[i-n].sc, aimed[i-n].val
+		}
 		a, err := f.W.NewAddress(0, sc)
 		if err != nil {
 			return fmt.Errorf("NewAddress: %w", err)
 		}
-		tx := f.PayTo(a, int64(1500+rg.Intn(7500)))
+		tx := f.PayTo(a, val)
 		txs = append(txs, tx)
 		cs = append(cs, &Coin{Op: wire.OutPoint{Hash: tx.TxHash(), Index: 0}, Out: tx.TxOut[0], Scope: sc, Acct: 0, Height: -1})
 	}
